@@ -13,7 +13,7 @@ FIXES = [
     ("D25", "c44c408", "C20", ["C20", "C19"]), ("D27", "02e0e1a", "C04", ["C04"]), ("D29", "f8623bd", "C08", ["C08"]),
     ("D26", "83c5ae9", "C06", ["C06"]), ("D28", "3228927", "C08", ["C08"]), ("D30", "ce45afe", "C02", ["C02", "C16"]), ("D31", "e6ee878", "C04", ["C04"]), ("D32", "dc7d07b", "C08", ["C08", "C20"]), ("D33", "6d23e96", "C08", ["C08"]), ("D34", "fa20f7a", "C19", ["C19"]), ("D35", "d457ac3", "C19", ["C19"]),
     ("D36", "2a1e787", "C17", ["C17"]), ("D37", "162df6d", "C20", ["C20"]), ("D19", "2e754e3", "C18", ["C18", "C13"]),
-    ("D39", "ce93d50", "C13", ["C13"]), ("D40", "f4e0af0:ce93d50", "C16", ["C16", "C02"]), ("D41", "f4e0af0", "C02", ["C02"]), ("D42", "a5d0f5e", "C14", ["C14"]), ("D45", "ae10224", "C14", ["C14", "C13"]), ("D44", "b7b5021", "C20", ["C20", "C15"]), ("D43", "2d34843", "C12", ["C12"]), ("D47", "bbd5020", "C16", ["C16"]), ("D39b", "074eb98", "C13", ["C13"]),
+    ("D39", "ce93d50", "C13", ["C13"]), ("D40", "f4e0af0:ce93d50", "C16", ["C16", "C02"]), ("D41", "f4e0af0", "C02", ["C02"]), ("D42", "a5d0f5e", "C14", ["C14"]), ("D45", "ae10224", "C14", ["C14", "C13"]), ("D44", "b7b5021", "C20", ["C20", "C15"]), ("D43", "2d34843", "C12", ["C12"]), ("D47", "bbd5020", "C16", ["C16"]), ("D48", "eff3d34", "C16", ["C16"]), ("D39b", "074eb98", "C13", ["C13"]),
 ]
 args = [a for a in sys.argv[1:] if not a.startswith("--")]
 slot = "7"
